@@ -288,4 +288,58 @@ theorem c20_loadevents_unfixed_counterexample :
 example : (loadList 1790000000 [ev 1789999903 "" true, ev 1787321599 "" true, ev 1787321600 "" true]).snapshot =
     [ev 1789999903 "" true, ev 1787321600 "" true] := by decide
 
+/-! ## the recorder's event loop: record / activity-page query / deferred save / restart -/
+
+/-- **Invariant of the event loop**, for every interleaving of recorded events, activity-page
+queries, save-timer expiries and restarts (from the empty recorder): whenever no save is pending,
+either the file holds exactly the current history (a save has happened since the last start), or
+nothing has been recorded since the start and the current history is the file as loaded then.
+Queries (which only touch the snapshot cache) never matter. -/
+theorem c20_loop_inv (ops : List LoopOp) : LoopInv (loopRun Loop.init ops) :=
+  loopInv_run ops Loop.init loopInv_init
+
+/-- the save timer's expiry always leaves no save pending (it writes whenever one was) -/
+theorem c20_loop_tick (s : Loop) : (loopStep s .tick).armed = false := by
+  show (if s.armed then _ else s).armed = false
+  by_cases h : s.armed = true
+  · rw [if_pos h]
+  · rw [if_neg h]; simpa using h
+
+/-- **Persistence across a restart.**  After any such interleaving, if no save is pending (the
+deferred save has run after the last recorded event), a restart at time `now` brings back, for
+every user, the same events in the same order minus those older than the retention — provided the
+clock did not go backwards since the previous start (and is in the range where the uint64
+conversion does not wrap). -/
+theorem c20_loop_persist (ops : List LoopOp) (now : Int) (u : String)
+    (ha : (loopRun Loop.init ops).armed = false)
+    (ht : ∀ t, (loopRun Loop.init ops).since = some t → (retention : Int) ≤ t ∧ t ≤ now ∧ now < 9223372036854775808) :
+    ((loopStep (loopRun Loop.init ops) (.restart now)).m u).map DL.snapshot =
+      ((loopRun Loop.init ops).m u).map (fun l => l.snapshot.filter (keep now)) := by
+  have hinv := c20_loop_inv ops ha
+  generalize loopRun Loop.init ops = s at *
+  show ((load now s.file) u).map DL.snapshot = _
+  unfold load
+  cases hs : s.since with
+  | none =>
+    rw [hs] at hinv
+    rw [hinv u]
+    cases s.m u <;> simp [loadList_snapshot]
+  | some t =>
+    rw [hs] at hinv
+    obtain ⟨h0, h1, h2⟩ := ht t hs
+    rw [hinv u]
+    cases s.file u with
+    | none => rfl
+    | some l => simp [loadList_snapshot, filter_keep_keep t now l h0 h1 h2]
+
+/-- the arm of `eventLoop` that performs the deferred save reads as it did when `loopStep` was
+written (take the snapshot, write it — unconditionally), and the delay is a few seconds -/
+theorem c20_loop_source :
+    KM.Gen.recorderSaveCaseSrc = "sr.getEventsList(&lastEvents) ; if err := saveEvents(sr.filename, lastEvents.Events); err != nil { sr.logger.Println(err) }".toList ∧
+    0 < KM.Gen.recorderSaveDelayMillis ∧ KM.Gen.recorderSaveDelayMillis ≤ 10000 := by
+  exact ⟨rfl, by decide, by decide⟩
+
+/-- non-vacuity: record, look at the activity page, let the save timer fire, restart -/
+example : (loopRun Loop.init [.record "alice" (ev 1789999901 "" true), .query, .tick]).armed = false := rfl
+
 end KM.Events
